@@ -58,7 +58,7 @@ BoundVersions == { Final(r) : r \in VerLits }
 FromSpecRanges ==
   { Rg(<<>>, <<v>>, FALSE, i) : v \in BoundVersions, i \in BOOLEAN } \cup
   { Rg(<<v>>, <<>>, i, FALSE) : v \in BoundVersions, i \in BOOLEAN } \cup
-  { Rg(<<uv[1]>>, <<uv[2]>>, TRUE, FALSE) : uv \in { p \in BoundVersions \X BoundVersions : VLess(p[1], p[2]) } } \cup
+  { Rg(<<uv[1]>>, <<uv[2]>>, f[1], f[2]) : uv \in { p \in BoundVersions \X BoundVersions : VLess(p[1], p[2]) }, f \in BOOLEAN \X BOOLEAN } \cup
   { Rg(<<v>>, <<v>>, TRUE, TRUE) : v \in BoundVersions }
 \* a specifier that was PARSED from one clause remembers its source text (`simplified`): from_specifier
 \* re-renders that clause; python_full_version operands are zero-padded except for ~= and wildcards
